@@ -405,7 +405,6 @@ Proof.
   - intros; apply with_use_ts_cnt; auto. apply open_cb_cnt.
   - intros; apply with_use_ts_cnt; auto. apply close_cb_cnt.
   - apply no_space_cnt.
-  - intros; apply fail_cnt; auto.
 Qed.
 
 Lemma ser_parts_cnt d ps w : c_in_ts (w_c w) = true -> cnt_inv d w -> cnt_inv d (ser_parts d w ps).
@@ -426,6 +425,9 @@ Proof.
     pose proof (reserve_cnt d w0 n H1) as H2;
     destruct (reserve_blk d true w0 n eq_refl) as [A2 _]; set (r := reserve d w0 n) in * end.
   destruct (negb (fst r)); [exact H2|]. destruct (w_err (snd r)); [exact H2|].
+  match goal with |- context [trace_recheck d e args ?a ?x] =>
+    destruct (trace_recheck_cases d e args a x) as [C|[C|(_ & a2 & _ & _ & C)]]; rewrite C; cbn [fst snd negb] end;
+    [|apply fail_cnt; exact H2|exact (no_space_cnt d _ H2)].
   unfold trace_ser. cbv zeta.
   assert (H3 : cnt_inv d (trace_mark d (snd r)) /\ c_in_ts (w_c (trace_mark d (snd r))) = true).
   { unfold trace_mark. destruct (_ && _); [|auto]. split; [|exact A2].
@@ -657,7 +659,6 @@ Proof.
     match goal with |- KK (set_c (close_cb d ?w0) _) =>
       assert (K0 : KK (close_cb d w0)) by (apply close_cb_KK; exact K'); exact K0 end.
   - exact K'.
-  - exact K'.
 Qed.
 
 (* tracer-initiated callbacks, precise shape *)
@@ -759,7 +760,6 @@ Proof.
   - eapply orsuf_trans; [exact H|apply with_use_ts_orsuf, open_cb_orsuf].
   - eapply orsuf_trans; [exact H|apply with_use_ts_orsuf, close_cb_orsuf].
   - exact H.
-  - exact H.
 Qed.
 Lemma trace_fn_orsuf d e args w : orsuf w (trace_fn d e args w).
 Proof.
@@ -775,6 +775,9 @@ Proof.
       by (destruct (reserve_orsuf d w0 n) as [pre E]; exists pre; exact E);
     set (r := reserve d w0 n) in * end.
   destruct (negb (fst r)); [exact H2|]. destruct (w_err (snd r)); [exact H2|].
+  match goal with |- context [trace_recheck d e args ?a ?x] =>
+    destruct (trace_recheck_cases d e args a x) as [C|[C|(_ & a2 & _ & _ & C)]]; rewrite C; cbn [fst snd negb] end;
+    [|exact H2|exact H2].
   eapply orsuf_trans; [exact H2|]. unfold trace_ser. cbv zeta.
   match goal with |- context [ser_parts d ?w3 ?ps] =>
     assert (H4 : orsuf (snd r) (ser_parts d w3 ps)); [|set (w4 := ser_parts d w3 ps) in *] end.
@@ -857,8 +860,8 @@ Proof.
   - destruct (full_then_open d w1 I1 O1 Hf) as [O2 [I2 X2]].
     set (w2 := with_use_ts (open_cb d) (snd (full_cb w1))) in *.
     destruct (gt_diff32 n (c_psize (w_c w2)) (c_at (w_c w2))); cbn [fst snd].
-    + split; [|intros _; exact O2]. eapply extn_trans; [exact X1|]. eapply extn_trans; [exact X2|].
-      exists [EErr 2]. split; [reflexivity|intros la; exact I].
+    + split; [|discriminate]. eapply extn_trans; [exact X1|]. eapply extn_trans; [exact X2|].
+      apply no_space_extn.
     + split; [|intros _; exact O2]. eapply extn_trans; eauto.
 Qed.
 
@@ -921,7 +924,14 @@ Proof.
   2:{ split; [eapply extn_eq_log_r; [|exact X3']; reflexivity|]. intros _.
       eapply KK_same; [exact K3|..]; reflexivity. }
   destruct (w_err (snd r)) eqn:Ee; [split; [exact X3'|congruence]|].
-  specialize (O3 eq_refl). unfold trace_ser. cbv zeta.
+  specialize (O3 eq_refl).
+  match goal with |- context [trace_recheck d e args ?a ?x] =>
+    destruct (trace_recheck_cases d e args a x) as [C|[C|(_ & a2 & _ & _ & C)]]; rewrite C; cbn [fst snd negb] end.
+  2:{ split; [|up; discriminate]. eapply extn_trans; [exact X3'|].
+      exists [EErr 4]. split; [reflexivity|intros la; exact I]. }
+  2:{ split; [eapply extn_trans; [exact X3'|]; exists [EDisc]; split; [reflexivity|intros la; exact I]|].
+      intros _. eapply KK_same; [exact K3|..]; reflexivity. }
+  unfold trace_ser. cbv zeta.
   assert (B1 : blk pn1 true (snd r) (trace_mark d (snd r))).
   { unfold trace_mark. apply opt_log_blk; [exact I3|]. exact I. }
   assert (O4 : c_open (w_c (trace_mark d (snd r))) = true).
